@@ -399,7 +399,25 @@ def inline_temps(func, keep=(), names_only=False, aliases_only=False):
     set_parents(f2)
     f2._parent = None
     f2._inlined_names = sorted({nm for nm, *_ in inlined})
+    _fold_literal_index(f2)
     return f2
+
+
+def _fold_literal_index(f):
+    """`(a, b, c)[1]` -> `b` (left behind when a packed tuple was inlined into its unpacking)"""
+    class Fold(ast.NodeTransformer):
+        def visit_Subscript(self, n):
+            self.generic_visit(n)
+            if isinstance(n.value, (ast.Tuple, ast.List)) and isinstance(n.ctx, ast.Load) and \
+                    isinstance(n.slice, ast.Constant) and isinstance(n.slice.value, int) and \
+                    not any(isinstance(e, ast.Starred) for e in n.value.elts) and \
+                    -len(n.value.elts) <= n.slice.value < len(n.value.elts):
+                return ast.copy_location(n.value.elts[n.slice.value], n)
+            return n
+    Fold().visit(f)
+    ast.fix_missing_locations(f)
+    set_parents(f)
+    f._parent = None
 
 
 def _drop(st, keep_value):
